@@ -86,6 +86,11 @@ class GuardM(Model):
     def deref_loc(self, ip):
         return Loc(self.lock.cell)
 
+    def on_drop(self, ip):
+        held = getattr(ip.path, 'locks_held', {})
+        held.pop(self.lock.name, None)
+        ip.path.effect('unlock', self.lock.name, self.mode)
+
 
 class StatusV(Model):
     def __init__(self, code, msg=None):
@@ -138,6 +143,25 @@ def install(ctx):
         n = read_loc(args[0].loc)
         ip.path.effect(pc['method'], n.name)
         return UNIT
+
+    # ---------------------------------------------------------- locks
+    @M.reg('RwLock::read', 'RwLock::write', 'Mutex::lock', 'RwLock::upgradable_read')
+    def lock_acquire(ip, pc, args, dt):
+        lk = read_loc(args[0].loc)
+        if isinstance(lk, Ref):
+            lk = read_loc(lk.loc)
+        if not isinstance(lk, LockM):
+            raise Unsupported('lock on %r' % (lk,))
+        mode = {'read': 'read', 'write': 'write', 'lock': 'write', 'upgradable_read': 'read'}[pc['method']]
+        held = getattr(ip.path, 'locks_held', {})
+        if held.get(lk.name):
+            # parking_lot locks are not re-entrant: a second acquisition on the same path deadlocks
+            if mode == 'write' or held[lk.name] == 'write':
+                raise PanicPath('deadlock', 'lock %s acquired while already held' % lk.name)
+        held[lk.name] = mode
+        ip.path.locks_held = held
+        ip.path.effect('lock', lk.name, mode)
+        return GuardM(lk, mode)
 
     # ---------------------------------------------------------- logging / formatting
     @M.reg('log::max_level', 'max_level')
